@@ -182,3 +182,13 @@ func branches(h func(func()) interface{ Serve() }, c io.Closer) {
 	}).Serve()
 	c.Close()
 }
+
+func moves(a, b int, h func(int) int) {
+	rot(1, 2, 3)
+	rot(a)
+	rot(h(1), h(2), b)
+	rot(a, rot(1, 2, b), b)
+	_ = []int{1, 2, a}
+	_ = T{1, 2, a}
+	shift(1, 2, 3, 4)
+}
